@@ -164,6 +164,13 @@ fn blte_seeds() -> Vec<Seed> {
 
 fn espec_seeds() -> Vec<Seed> {
     let mut out = Vec::new();
+    // hand-made ones first: the list is cut to 48 entries below, and the window-bits, BCPack,
+    // GDeflate, multi-block and "count too large" branches are only reachable from these
+    for s in ["n", "z", "z:9", "z:{9,15}", "z:{6,mpq}", "z:{6,zlib,15}", "z:{9,lz4hc,8}", "b:{1768=z,66443=n}", "b:{256K*=z}", "b:{16K*4=z,*=n}", "b:{1M*2=z:{9,15},256K*=n}", "e:{237DA26C65073F42,06FC152E,z}", "b:{16K*=z:{6,mpq}}", "c:{1}", "c:{7}", "g:{5}", "g:{12}", "b:{4294967295K*=z}", "b:{1K*4294967295=n,*=z}",
+        // rejected on purpose (error branches next to the accepted boundary values above)
+        "b:{*=z,*=n}", "b:{1K=n,*4294967296=z}", "b:{18014398509481984K*=z}", "b:{17592186044416M=z,*=n}"] {
+        out.push(seed(&format!("made:espec/{s}"), s.as_bytes().to_vec()));
+    }
     for f in ["representative_especs.json", "wow_classic_era_especs.json"] {
         let Ok(text) = std::fs::read_to_string(Path::new(FIXTURES).join("espec").join(f)) else { continue };
         let Ok(v) = serde_json::from_str::<serde_json::Value>(&text) else { continue };
@@ -172,9 +179,6 @@ fn espec_seeds() -> Vec<Seed> {
         for (i, s) in strings.iter().enumerate() {
             out.push(seed(&format!("fixture:espec/{f}#{i}"), s.clone().into_bytes()));
         }
-    }
-    for s in ["n", "z", "z:9", "z:{9,15}", "b:{1768=z,66443=n}", "b:{256K*=z}", "e:{237DA26C65073F42,06FC152E,z}", "b:{16K*=z:{6,mpq}}", "c:{1}", "g:{5}"] {
-        out.push(seed(&format!("made:espec/{s}"), s.as_bytes().to_vec()));
     }
     // dedup by content, keep it small
     let mut seen = std::collections::BTreeSet::new();
@@ -280,10 +284,10 @@ fn size_seeds() -> Vec<Seed> {
     use cascette_formats::install::TagType;
     use cascette_formats::size::SizeManifestBuilder;
     let mut out = Vec::new();
-    for version in [1u8, 2u8] {
+    for (version, esize_bytes) in [(1u8, 4u8), (2, 4), (1, 8)] {
         let mut b = SizeManifestBuilder::new().version(version).ekey_size(9);
         if version == 1 {
-            b = b.esize_bytes(4);
+            b = b.esize_bytes(esize_bytes);
         }
         b = b.add_tag("Windows".to_string(), TagType::Platform).add_tag("enUS".to_string(), TagType::Locale);
         for i in 0..12u8 {
@@ -292,7 +296,7 @@ fn size_seeds() -> Vec<Seed> {
         b = b.tag_file(0, 1).tag_file(1, 3).tag_file(0, 11);
         if let Ok(m) = b.build() {
             if let Ok(bytes) = m.build() {
-                out.push(seed(&format!("built:size/v{version}"), bytes));
+                out.push(seed(&format!("built:size/v{version}-esize{esize_bytes}"), bytes));
             }
         }
     }
@@ -605,6 +609,22 @@ fn offtout(v: i64) -> [u8; 8] {
     b
 }
 
+/// File names as inputs (directory listings are input from the disk): the content written under
+/// the name is the `aux` blob, a valid file of the kind.
+fn filename_seeds(names: &[&str], content: &[u8], family: &str) -> Vec<Seed> {
+    names.iter().map(|n| Seed { name: format!("made:{family}/{n}"), data: n.as_bytes().to_vec(), aux: content.to_vec() }).collect()
+}
+
+/// Patch index: the header's `data_size` (u32 LE at offset 8) must equal the file length.
+pub fn patch_index_fix_data_size(data: &mut [u8]) {
+    if data.len() >= 12 {
+        let n = data.len() as u32;
+        data[8..12].copy_from_slice(&n.to_le_bytes());
+    }
+}
+
+const BUILD_CONFIG_ALL_KEYS: &str = "# Build Configuration\n\nroot = 9d6b9c0a5c9a3f8d6a53e9d0a3e5b1c2\ninstall = fb07b881f4527bda7cf8a1a2f99e8622 d6bb8e6e0a0b2b2c3d3d9d9c1c1a1a0f\ninstall-size = 23038 22281\ninstall-high-ver = ab07b881f4527bda7cf8a1a2f99e8622 c6bb8e6e0a0b2b2c3d3d9d9c1c1a1a0f\ninstall-high-ver-size = 1000 900\ndownload = b07b881f4527bda7cf8a1a2f99e8622e c6bb8e6e0a0b2b2c3d3d9d9c1c1a1a0f\ndownload-size = 48810 46334\nsize = 0a7b881f4527bda7cf8a1a2f99e8622e 1abb8e6e0a0b2b2c3d3d9d9c1c1a1a0f\nsize-size = 3637 3428\nencoding = e058fa32dfe994c5e143bd0fcd0994dd 25c87b6ce82551dc8d62c2800aad6e8f\nencoding-size = 14004322 14000648\npatch = 658506593cf1f98a1d9300c418ee5355\npatch-size = 22837\npatch-config = 474b9630df5b46df5d98ec27c5f78d07\npatch-index = 0123456789abcdef0123456789abcdef fedcba9876543210fedcba9876543210\npatch-index-size = 5000 4000\nbuild-name = WOW-65989patch1.15.8_ClassicRetail\nbuild-uid = wow_classic_era\nbuild-product = WoW\nbuild-playtime-url = https://example.invalid/playtime\nbuild-product-espec = b:{256K*=z}\nbuild-file-db = 11223344556677889900aabbccddeeff ffeeddccbbaa00998877665544332211\nbuild-file-db-size = 700 650\nbuild-partial-priority = 0123456789abcdef0123456789abcdef:0 fedcba9876543210fedcba9876543210:262144 broken 1:2:x\nclient-version = 1.15.8.65989\nfeature-placeholder = true\nfeature-use-hardlinks = 1\nno-frame-encoding = 1\nkey-layout-index-bits = 4\nkey-layout-0 = 16 4 5 0\nkey-layout-1 = 16 4 6 0\nvfs-root = 11111111111111111111111111111111 22222222222222222222222222222222\nvfs-root-size = 50071 33487\nvfs-root-espec = b:{16K*=z}\nvfs-1 = 33333333333333333333333333333333 44444444444444444444444444444444\nvfs-1-size = 100 90\nvfs-1-espec = z\nvfs-2 = 55555555555555555555555555555555 66666666666666666666666666666666\nvfs-2-size = 200 190\n";
+
 pub type Families = BTreeMap<&'static str, Vec<Seed>>;
 
 pub fn build_all() -> Families {
@@ -622,6 +642,8 @@ pub fn build_all() -> Families {
         let small: String = text.lines().filter(|l| !l.starts_with("vfs-") || l.starts_with("vfs-root") || l.starts_with("vfs-1 ") || l.starts_with("vfs-1-size")).map(|l| format!("{l}\n")).collect();
         build_cfg.insert(0, seed("derived:build_config/small", small.into_bytes()));
     }
+    // every key an accessor of BuildConfig reads (the CDN fixtures lack most optional ones)
+    build_cfg.insert(1.min(build_cfg.len()), seed("made:build_config/all-keys", BUILD_CONFIG_ALL_KEYS.as_bytes().to_vec()));
     f.insert("build_config", build_cfg);
     let mut keyring: Vec<Seed> = cfg.iter().filter(|s| s.name.contains("keyring")).cloned().collect();
     keyring.sort_by_key(|s| s.data.len());
@@ -657,10 +679,16 @@ pub fn build_all() -> Families {
     f.insert("archive_group", archive_group_seeds(&ai));
     f.insert("archive_index", ai);
     f.insert("mime", mime_seeds());
-    f.insert("idx", idx_seeds());
+    let idx = idx_seeds();
+    let idx_content = idx.first().map(|s| s.data.clone()).unwrap_or_default();
+    f.insert("idx_filename", filename_seeds(&["0000000001.idx", "0f0000000a.idx", "0a000000ff.IDX", "données-é.idx", "shmem", "0000000001.idx.tmp"], &idx_content, "idx_filename"));
+    f.insert("idx", idx);
     f.insert("update_section", update_section_seeds());
     f.insert("residency", residency_seeds());
-    f.insert("lru", lru_seeds());
+    let lru = lru_seeds();
+    let lru_content = lru.first().map(|s| s.data.clone()).unwrap_or_default();
+    f.insert("lru_filename", filename_seeds(&["0000000000000007.lru", "00000000000000ff.lru", "FFFFFFFFFFFFFFFF.lru", "0000000000000007.LRU", "sauvegardé-é.lru"], &lru_content, "lru_filename"));
+    f.insert("lru", lru);
     f.insert("shmem", shmem_seeds());
     f.insert("build_info", vec![seed("made:build_info", BUILD_INFO.as_bytes().to_vec())]);
     f.insert("local_header", local_header_seeds());
